@@ -855,6 +855,7 @@ def _prime_factors(n: int):
     return out
 
 
+POSITIVE_POLYS = []   # the same polynomials, for witness sampling inside the declared domain
 POSITIVE = set()     # keys of primitive polynomials declared positive by an obligation (generic-position domain)
 
 
@@ -862,7 +863,10 @@ def declare_positive(r):
     """obligation-level domain assumption: the value is > 0, so abs(v) = v and sign(v) = 1"""
     r = _to_rat(r)
     c, prim = p_content(r.num)
-    POSITIVE.add(p_key(prim if c > 0 else p_neg(prim)))
+    prim = prim if c > 0 else p_neg(prim)
+    if p_key(prim) not in POSITIVE:
+        POSITIVE.add(p_key(prim))
+        POSITIVE_POLYS.append(prim)
 
 
 def p_sqrt_exact(p):
@@ -1220,24 +1224,46 @@ def evalf(r: Rat, val, cache=None):
     return n / d if d else float("nan")
 
 
-def witness(a: Rat, b: Rat, seed=0, tries=12, domain=None):
+def witness(a: Rat, b: Rat, seed=0, tries=40, domain=None):
     """Search a valuation of the symbol atoms where a != b numerically.
     Returns (valuation dict, a_val, b_val) or None if a and b agree (to 1e-9 relative
     to the magnitude of the residual's terms) at every tried point.
     ``domain`` maps symbol name -> (lo, hi)."""
     rng = random.Random(seed)
     resid_n = p_add(p_mul(a.num, b.den), p_mul(b.num, a.den), -1)
+    constrained = set()          # symbols occurring in a declared unit relation: sampled small so the dependent one is real
+    for rep in SQ_RULES.values():
+        for m in rep:
+            for x, _ in m:
+                constrained.add(x)
     for _ in range(tries):
         vals = {}
 
         def val(at):
             if at.id not in vals:
-                lo, hi = (domain or {}).get(at.name, (0.2, 1.7))
-                vals[at.id] = rng.uniform(lo, hi) * (1 if (domain and at.name in domain) else rng.choice((1, 1, -1)))
+                if at.id in SQ_RULES:
+                    # dependent symbol of a declared relation  at^2 = poly(others): stay on the manifold
+                    sq, _ = _eval_poly(SQ_RULES[at.id], val, {})
+                    vals[at.id] = math.sqrt(sq) * rng.choice((1, -1)) if sq >= 0 else float("nan")
+                elif at.id in constrained:
+                    vals[at.id] = rng.uniform(0.1, 0.55) * rng.choice((1, -1))
+                else:
+                    lo, hi = (domain or {}).get(at.name, (0.2, 1.7))
+                    vals[at.id] = rng.uniform(lo, hi) * (1 if (domain and at.name in domain) else rng.choice((1, 1, -1)))
             return vals[at.id]
         cache = {}
         r, scale = _eval_poly(resid_n, val, cache)
         if r != r or scale != scale:
+            continue
+        # stay inside the declared domain: every polynomial declared positive whose atoms were sampled must be > 0
+        inside = True
+        for pp in POSITIVE_POLYS:
+            if all((x in cache) for m in pp for x, _ in m):
+                v, _ = _eval_poly(pp, val, cache)
+                if not v > 0:
+                    inside = False
+                    break
+        if not inside:
             continue
         if abs(r) > 1e-9 * max(scale, 1e-300):
             return ({_ATOMS[i].name: v for i, v in vals.items()}, evalf(a, val, cache), evalf(b, val, cache))
